@@ -74,8 +74,14 @@ def fault_cases(rng, nmax, kmax, frac=1.0, mask=0b10111):
                         ops.append(f"sew 2 {l} {r}")
                         ops.append(f"fsew 2 {l} {r}")
                 ops += [f"unsew 1 {l}", f"unsew 2 {l}", f"funsew 2 {l}", f"funsew 1 {l}", f"fsew 1 {l} {in_use[(l) % n]}"]
+                # links and unlinks (no attribute update, k = 0 only matters): a REFUSED call — occupied base or image, already free —
+                # in plain and force_ form must leave the map unchanged as well
+                if n <= 3:
+                    ops += [f"{f}unlink {i} {l}" for f in ("", "f") for i in (1, 2)]
+                    ops += [f"{f}link 1 {l} {r}" for f in ("", "f") for r in in_use]
+                    ops += [f"{f}link 2 {l} {r}" for f in ("", "f") for r in in_use if r != l]
             for op in ops:
-                for k in range(0, kmax + 1):
+                for k in range(0, (kmax if "sew" in op else 0) + 1):
                     cid += 1
                     lines = [load] + vals + ["snap"] + ([f"fault {k}"] if k else []) + [op, "snap"]
                     cases.append(Case(f"f{n}-{cid}", lines, oracle="unchanged", meta={"sig": op.split()[0], "k": k}))
